@@ -410,6 +410,7 @@ pub fn compare_traces(
                 right == r2 && crate::layout::pruned_match(s2, scrut)
             }
             (REvent::Fail { .. }, Event::Fail) => true,
+            (REvent::Witness { value, .. }, Event::Witness { value: v2 }) => crate::layout::pruned_match(v2, value),
             (REvent::Marker { call, args }, Event::Marker { cmr, args: a2 }) => {
                 if !crate::layout::pruned_match(a2, args) {
                     false
